@@ -343,6 +343,14 @@ func runReplay(bin, file string, noKF bool, keep ...string) (violation bool, msg
 	out, err := cmd.CombinedOutput()
 	rb, rerr := os.ReadFile(filepath.Join(dir, "replay-result.json"))
 	if rerr != nil {
+		// the in-process watchdog ends a replay that hangs and leaves the case as a failure file
+		if fb, ferr := os.ReadFile(filepath.Join(dir, "failure.0.json")); ferr == nil {
+			var f struct {
+				Msg string `json:"msg"`
+			}
+			_ = json.Unmarshal(fb, &f)
+			return true, f.Msg
+		}
 		if ctx.Err() == context.DeadlineExceeded || strings.Contains(string(out), "test timed out") {
 			return true, "replay did not finish within 100 s (hang)"
 		}
